@@ -135,7 +135,21 @@ StoppedIsFinal == [][Stopped => m'.r = m.r /\ m'.mem = m.mem /\ m'.ops = m.ops /
 \* a run with a limit always ends
 Terminates == (job.maxops > 0) ~> (m.ph = "reported")
 
-\* coverage guards (negated as invariants in the _cov configuration): each must be reachable
-SomeInterrupt == m.nint > 0
-SomePaging == m.mem.is128 /\ m.mem.p7 = 35 /\ Stopped
+\* reachability guards (TraceRun_cov.cfg): every tag must be printed at least once.  A worker prints a tag the first time it
+\* meets a state of that kind (TLC registers are per worker and initialised for all workers by the ASSUME).
+Tags == << <<"interrupt", m.nint > 0>>,
+           <<"paged-and-locked", m.mem.is128 /\ m.mem.p7 = 35 /\ Stopped>>,
+           <<"locked-out-ignored", m.mem.is128 /\ m.mem.p7 = 35 /\ m.last.pc = 32789 /\ m.ph = "int">>,
+           <<"stop-ops", m.reason = "ops">>, <<"stop-tstates", m.reason = "tstates">>, <<"stop-addr", m.reason = "addr">>,
+           <<"ops-and-addr", m.ph = "check" /\ OpsReached(job, m) /\ AtStop(job, m)>>,
+           <<"tstates-and-addr", m.ph = "check" /\ ~OpsReached(job, m) /\ TReached(job, m) /\ AtStop(job, m)>>,
+           <<"ops-and-tstates", m.ph = "check" /\ OpsReached(job, m) /\ TReached(job, m)>>,
+           <<"halted", m.r[rHALT] = 1>>,
+           <<"halt-woken", m.last.op = 118 /\ m.ph = "int" /\ m.r[rHALT] = 0 /\ m.ops > 0>>,
+           <<"stop-in-handler", Stopped /\ m.r[rPC] = 33536 /\ m.reason = "addr">>,
+           <<"start-equals-stop", Stopped /\ job.stop = 32768 /\ m.reason = "addr">>,
+           <<"banked-write", \E i \in 1..Len(m.mem.ov) : m.mem.ov[i][1] >= 65536>>,
+           <<"no-limit-cut", m.ops = Bound /\ job.maxops = 0 /\ job.maxt = 0>> >>
+ASSUME \A k \in 1..15 : TLCSet(k, 0)
+CovSeen == \A k \in 1..Len(Tags) : IF Tags[k][2] /\ TLCGet(k) = 0 THEN TLCSet(k, 1) /\ PrintT(<<"COV", Tags[k][1]>>) ELSE TRUE
 =============================================================================
